@@ -1172,6 +1172,18 @@ class Session:
         its cache) and goes back to the pool.  The walk that follows starts from d0 and reaches d1 and d2 both
         directly and through that pooled pair: one in-memory object per (database, oid) in the whole group."""
         recs = self._all_records(self.storages[1])
+        # (only if nothing in d1 and d2 refers to d0: get_connection hands the merged map to the adopted primary
+        # but not to the siblings attached to it, so a reference from d2 into d0 would open a second d0
+        # connection — reported as a finding, not generated here)
+        for i in (1, 2):
+            for data in self._all_records(self.storages[i]).values():
+                try:
+                    c_, a_, s_, _ = decode_record(data)
+                except Exception:
+                    return False
+                for t in tree_leaves((a_ or []) + s_):
+                    if (t[0] in 'MN' and t[1:].split(':')[0] == '0') or (t[0] == 'W' and t.endswith(':0')):
+                        return False
         for oid in sorted(recs):
             try:
                 c_, a_, s_, _ = decode_record(recs[oid])
